@@ -421,6 +421,10 @@ class _Namespace:
         return lambda *args: stub.world.rpc(stub.src, stub.dst, ns, name, args)
 
 
+class _Abort(BaseException):
+    """Stops the processing of a message by a proxy thread once its first XML-RPC is known (see World._lag)."""
+
+
 class RemoteStub:
     def __init__(self, world, src, dst):
         self.world, self.src, self.dst = world, src, dst
@@ -443,6 +447,7 @@ class ControlledProxy(sp.SupervisorProxy):
     def stop(self):
         # the real thread leaves its loop, drops what is left in its queue and unregisters itself
         self.world.channels.pop((self.src, self.dst), None)
+        self.world.hung.pop((self.src, self.dst), None)
         self.supvisors.rpc_handler.proxy_server.on_proxy_closing(self.status.identifier)
 
     def join(self):
@@ -705,6 +710,9 @@ class World:
         self.channels = {}
         self.cut = set()        # frozenset((i, j)): RPCs fail with a transport error
         self.stalled = set()    # (i, j): directed channel frozen, nobody is told
+        self.hung = {}          # (i, j): the proxy thread of i for j waits for the reply of an XML-RPC (see _hang)
+        self._rpc_mode = None   # transient: ('record', rec) | ('replay', rec) while a slow exchange is (re)played
+        self.lagging = {}       # (i, j): an XML-RPC of i's proxy thread for j is on the wire, not yet served (see _lag)
         self.round = 0          # highest absolute tick index emitted so far
         self.abs_ticks = [0] * n  # absolute tick count per instance (keeps growing across restarts)
         self.pid_counter = 0
@@ -745,6 +753,15 @@ class World:
 
     def push(self, src, dst, message):
         """A main thread pushes a message to one of its proxies."""
+        mode = self._rpc_mode
+        if mode is not None:
+            kind_, rec_ = mode
+            if kind_ == 'record':
+                rec_['pushes'].append((len(rec_['answers']), src, dst, message))
+                return
+            if rec_['released'] > 0:
+                rec_['released'] -= 1   # already delivered when the exchange began
+                return
         self.channels.setdefault((src, dst), collections.deque()).append(message)
         kind, (_, body) = message[0], message[1]
         if kind == sp.InternalEventHeaders.PUBLICATION:
@@ -763,6 +780,31 @@ class World:
 
     # -- transport ---------------------------------------------------------------------------
     def rpc(self, src, dst, ns, name, args):
+        mode = self._rpc_mode
+        if mode is not None and mode[0] == 'capture':
+            mode[1]['call'] = (ns, name, wire(list(args)))
+            raise _Abort()
+        if mode is not None and mode[0] == 'replay':
+            rec_ = mode[1]
+            kind_, val = rec_['answers'].pop(0)
+            if not rec_['answers']:
+                # the late reply has arrived: from now on the thread runs at the present time
+                if self.clock_t < rec_['t2']:
+                    self.clock_t = rec_['t2']
+            if kind_ == 'exc':
+                raise val
+            return val
+        if mode is not None:
+            try:
+                val = self._rpc(src, dst, ns, name, args)
+            except Exception as exc:
+                mode[1]['answers'].append(('exc', exc))
+                raise
+            mode[1]['answers'].append(('ok', val))
+            return val
+        return self._rpc(src, dst, ns, name, args)
+
+    def _rpc(self, src, dst, ns, name, args):
         target = self.sups[dst]
         if not target.alive or (src != dst and frozenset((src, dst)) in self.cut):
             for m in self.monitors:
@@ -815,7 +857,8 @@ class World:
         out = []
         for key in sorted(self.channels):
             q = self.channels[key]
-            if q and self.sups[key[0]].alive and key not in self.stalled:
+            if q and self.sups[key[0]].alive and key not in self.stalled and key not in self.hung \
+                    and key not in self.lagging:
                 out.append(key)
         return out
 
@@ -865,6 +908,14 @@ class World:
                 self.stalled.add((ev[1], ev[2]))
             elif kind == 'resume':
                 self.stalled.discard((ev[1], ev[2]))
+            elif kind == 'hang':
+                self._hang((ev[1], ev[2]))
+            elif kind == 'unhang':
+                self._unhang((ev[1], ev[2]))
+            elif kind == 'lag':
+                self._lag((ev[1], ev[2]))
+            elif kind == 'land':
+                self._land((ev[1], ev[2]))
             elif kind == 'ustart':
                 self._user_supervisor(ev[1], 'startProcess', ev[2])
             elif kind == 'ustop':
@@ -902,6 +953,154 @@ class World:
             self.faults.append({'kind': 'proxy-thread-died', 'idx': src, 'method': 'process_event',
                                 'exc': type(exc).__name__, 'where': _innermost(exc), 'text': str(exc)[:200]})
 
+    # -- slow exchanges ---------------------------------------------------------------------
+    # The proxy thread of `src` for `dst` takes the message at the head of its queue and performs its XML-RPCs now,
+    # but the reply of the LAST one is late: everything the thread does after that reply (and every time it reads
+    # the clock from then on) happens at the time of the 'unhang' event; its queue is blocked meanwhile, while the
+    # main threads go on.  Implemented by record / replay of the real proxy code: the first pass performs the
+    # XML-RPCs on the remote instance (their effects and answers belong to the present time) and lets through
+    # only what the thread pushes before the last reply; the second pass replays the recorded answers on a clock
+    # set back to the beginning of the exchange, which jumps to the present when the last answer is consumed.
+    def _hang(self, key):
+        src, dst = key
+        msg = self.channels[key][0]
+        s = self.sups[src]
+        proxy = s.rpc_handler.proxy_server.proxies.get(self.idents[dst])
+        if proxy is None or key in self.hung:
+            raise ValueError(f'illegal hang {key}')
+        rec = {'answers': [], 'pushes': []}
+        t1 = self.clock_t
+        self._rpc_mode = ('record', rec)
+        try:
+            proxy.process_event(msg)
+        except Exception:
+            pass    # judged when the exchange completes
+        finally:
+            self._rpc_mode = None
+        n = len(rec['answers'])
+        released = 0
+        for count, psrc, pdst, message in rec['pushes']:
+            if count < n or n == 0:
+                self.push(psrc, pdst, message)
+                released += 1
+        if n == 0:
+            # nothing was sent (e.g. a publication filtered out): an ordinary delivery
+            q = self.channels[key]
+            q.popleft()
+            if not q:
+                del self.channels[key]
+            return
+        self.hung[key] = {'t1': t1, 'answers': rec['answers'], 'released': released}
+
+    def _unhang(self, key):
+        src, dst = key
+        h = self.hung.pop(key)
+        q = self.channels[key]
+        msg = q.popleft()
+        if not q:
+            del self.channels[key]
+        s = self.sups[src]
+        proxy = s.rpc_handler.proxy_server.proxies.get(self.idents[dst])
+        if proxy is None:
+            return
+        if not self.sups[dst].alive:
+            # the peer died meanwhile: the pending reply becomes a connection reset
+            h['answers'][-1] = ('exc', ConnectionResetError('peer died'))
+        rec = {'answers': list(h['answers']), 'released': h['released'], 't2': self.clock_t}
+        self.clock_t = h['t1']
+        self._rpc_mode = ('replay', rec)
+        try:
+            proxy.process_event(msg)
+        except Exception as exc:
+            self.faults.append({'kind': 'proxy-thread-died', 'idx': src, 'method': 'process_event',
+                                'exc': type(exc).__name__, 'where': _innermost(exc), 'text': str(exc)[:200]})
+        finally:
+            self._rpc_mode = None
+            if self.clock_t < rec['t2']:
+                self.clock_t = rec['t2']
+
+    # A publication whose XML-RPC is on the wire: sent now, served by the remote instance at the time of the 'land'
+    # event, even if the sender has given up on the peer meanwhile (its thread stopped: the request is already out).
+    def _lag(self, key):
+        src, dst = key
+        msg = self.channels[key][0]
+        s = self.sups[src]
+        proxy = s.rpc_handler.proxy_server.proxies.get(self.idents[dst])
+        if proxy is None or key in self.lagging or key in self.hung:
+            raise ValueError(f'illegal lag {key}')
+        rec = {'call': None}
+        self._rpc_mode = ('capture', rec)
+        try:
+            proxy.process_event(msg)
+        except _Abort:
+            pass
+        finally:
+            self._rpc_mode = None
+        if rec['call'] is None:
+            # nothing was sent (a publication filtered out): an ordinary delivery
+            q = self.channels[key]
+            q.popleft()
+            if not q:
+                del self.channels[key]
+            return
+        self.lagging[key] = {'t1': self.clock_t, 'call': rec['call']}
+
+    def _land(self, key):
+        src, dst = key
+        h = self.lagging.pop(key)
+        ns, name, args = h['call']
+        cause, self.cause = self.cause, ('wire', src)     # sent before, served now
+        try:
+            answer = ('ok', self._rpc(src, dst, ns, name, args))
+        except Exception as exc:
+            answer = ('exc', exc)
+        finally:
+            self.cause = cause
+        s = self.sups[src]
+        proxy = s.rpc_handler.proxy_server.proxies.get(self.idents[dst]) if s.alive else None
+        q = self.channels.get(key)
+        if proxy is None or not q:
+            return      # the sender gave up meanwhile: nobody waits for the answer
+        msg = q.popleft()
+        if not q:
+            del self.channels[key]
+        rec = {'answers': [answer], 'released': 0, 't2': self.clock_t}
+        self._rpc_mode = ('replay', rec)
+        try:
+            proxy.process_event(msg)
+        except Exception as exc:
+            self.faults.append({'kind': 'proxy-thread-died', 'idx': src, 'method': 'process_event',
+                                'exc': type(exc).__name__, 'where': _innermost(exc), 'text': str(exc)[:200]})
+        finally:
+            self._rpc_mode = None
+
+    def _reachable(self, key):
+        """A slow exchange needs a live, connected peer (otherwise the XML-RPC fails at once)."""
+        return self.sups[key[1]].alive and frozenset(key) not in self.cut
+
+    def laggable(self, kinds=('TICK',)):
+        """Channels whose head is a publication of one of the given kinds (a single XML-RPC)."""
+        out = []
+        for key in self.deliverable():
+            kind, (_, body) = self.channels[key][0]
+            if kind == sp.InternalEventHeaders.PUBLICATION and key[0] != key[1] and self._reachable(key):
+                try:
+                    if sp.PublicationHeaders(body[0]).name in kinds:
+                        out.append(key)
+                except ValueError:
+                    pass
+        return out
+
+    def hangable(self, kinds=('CHECK_INSTANCE',)):
+        """Channels whose head may be turned into a slow exchange: requests of the given kinds."""
+        out = []
+        for key in self.deliverable():
+            kind, (_, body) = self.channels[key][0]
+            if kind == sp.InternalEventHeaders.REQUEST and RequestHeaders(body[0]).name in kinds \
+                    and key[0] != key[1] and self._reachable(key):
+                out.append(key)
+        return out
+
     def _tick(self, i):
         self.abs_ticks[i] += 1
         if self.abs_ticks[i] > self.round:
@@ -936,6 +1135,10 @@ class World:
         s.alive = False
         for key in [k for k in self.channels if k[0] == i]:
             del self.channels[key]
+        for key in [k for k in self.hung if k[0] == i]:
+            del self.hung[key]
+        for key in [k for k in self.lagging if k[0] == i]:
+            del self.lagging[key]
         for _, p in s.procs():
             p.state = PS.STOPPED
             p.pid = 0
@@ -999,6 +1202,11 @@ class World:
 
     def round_robin(self, rounds, settle=None):
         """Fair closure: deliver everything FIFO, tick live instances round-robin."""
+        # fairness: every slow exchange completes (requests on the wire land first, then the late replies arrive)
+        for key in sorted(self.lagging):
+            self.apply(('land',) + key)
+        for key in sorted(self.hung):
+            self.apply(('unhang',) + key)
         self.drain()
         # catch-up phase: an instance that is behind ticks first (equal tick rates, see tick_menu)
         while True:
